@@ -152,6 +152,18 @@ func init() {
 			i.nondet = append(i.nondet, rec)
 			return b
 		},
+		"OpaqueBytes": func(fr *frame, args []value) value {
+			i := fr.i
+			name := argString(args[0])
+			t := i.fresh(name+".len", smt.BV(64))
+			i.nondet = append(i.nondet, NondetRec{Name: name, Kind: "opaquelen", Terms: []*smt.Term{t}})
+			i.assumeInternal(i.ctx.BVCmp(smt.OpSLe, i.ctx.BVC(0, 64), t))
+			return &symSlice{n: t}
+		},
+		"Prefer": func(fr *frame, args []value) value {
+			fr.i.soft = append(fr.i.soft, fr.i.termOf(args[0]))
+			return nil
+		},
 		"Assume": func(fr *frame, args []value) value {
 			fr.i.userAssume(fr.i.termOf(args[0]))
 			return nil
